@@ -143,7 +143,16 @@ STMT_CORES.update({
     "void_inside_tuple_literal": ("vt :: (__lit1, 1)", "", spec_void_var),
     "void_inside_list_literal": ("vl :: [__lit1]", "", spec_void_var),
 })
-GENERIC_LITS = {"generic_tuple_local_not_returned": ["int", "float", "str", "bool"], "generic_inner_closure_and_outer_parameter": ["int", "str", "bool"], "operand_through_self": ["int", "str", "float"],
+_notnum = lambda S, I: z3.Not(z3.Or(I("lit1", "int"), I("lit1", "float")))
+STMT_CORES.update({
+    # compound assignment whose two sides are different expressions of one (already unified) type
+    "compound_sub_between_aliases": ("ca := __lit1\ncb := ca\nca -= cb", "", _notnum),
+    "compound_mul_after_comparison": ("cc := __lit1\ncd := __lit1\npr(cc != cd)\ncc *= cd", "", _notnum),
+    "compound_sub_on_blob_field": ("pb := Bg { f: __lit1 }\npb.f -= pb.f", "Bg :: blob {\n    f: *,\n}\n", _notnum),
+    "compound_add_between_aliases": ("ce := __lit1\ncf := ce\nce += cf", "", lambda S, I: z3.Not(z3.Or(I("lit1", "int"), I("lit1", "float"), I("lit1", "str")))),
+})
+GENERIC_LITS = {"compound_sub_between_aliases": ["int", "float", "str", "bool"], "compound_mul_after_comparison": ["int", "str", "bool"], "compound_sub_on_blob_field": ["int", "str", "bool"], "compound_add_between_aliases": ["int", "str", "bool"],
+                "generic_tuple_local_not_returned": ["int", "float", "str", "bool"], "generic_inner_closure_and_outer_parameter": ["int", "str", "bool"], "operand_through_self": ["int", "str", "float"],
                 "void_inside_tuple_literal": ["int", "str", "void"], "void_inside_list_literal": ["int", "str", "void"], "generic_tuple_result_unused_call": ["int", "float", "str"], "generic_tuple_result_in_tuple_literal": ["int", "float", "str"], "generic_tuple_result_trailing_in_closure": ["int", "str"],
                 "generic_tuple_negation_unused_call": ["int", "float", "str", "bool"], "generic_tuple_negation_stored": ["int", "float", "str", "bool"], "generic_binop_args": ["int", "str", "bool", "float"], "generic_binop_via_variables": ["int", "str", "bool"], "tuple_elementwise": ["tuple", "tuple_str", "int"]}
 
